@@ -706,7 +706,7 @@ def gen(seed, profile, cfg=None):
 
 
 NP_PROFILES = ('dyn', 'lock', 'sched', 'stop', 'tv', 'query', 'ctrl',
-               'motor', 'stress', 'grid', 'decl')
+               'motor', 'stress', 'grid', 'decl', 'quant')
 
 
 def gen_lock(g):
